@@ -18,7 +18,7 @@ pub const CONFIGS: &[&str] = &["builtin", "symbolic", "words"];
 /// extra operators registered per configuration: (name, kind)
 pub fn config_ops(cfg: &str) -> Vec<(&'static str, &'static str)> {
     match cfg {
-        "symbolic" => vec![("+++", "prefix"), ("**", "infix"), ("<=>", "infix"), ("=~", "infix"), ("!!", "postfix")],
+        "symbolic" => vec![("+++", "prefix"), ("**", "infix"), ("<=>", "infix"), ("=~", "infix"), ("!!", "postfix"), ("?:", "infix"), (":=", "infix"), ("??", "postfix")],
         "words" => vec![("hi", "infix"), ("is_a", "infix"), ("~=", "infix"), ("is-not", "infix"), ("neg", "prefix"), ("§", "postfix")],
         _ => vec![],
     }
